@@ -68,8 +68,13 @@ def run_reader(p, stream, cfg, k):
     for _ in range(k):
         del calls[:]
         try:
-            raw, parsed = rd.read()
+            with vlib.watchdog(8):
+                raw, parsed = rd.read()
             res = ("E",) if raw is None and parsed is None else ("Y", raw, parsed)
+        except vlib.WatchdogTimeout as e:
+            res = ("F", "read() did not finish within 8 s")
+            out.append((list(calls), res))
+            break
         except Exception as e:  # noqa
             t = vlib.exc_tag(e)
             res = ("R", t) if t != 5 else ("F", repr(e))
@@ -122,25 +127,32 @@ def add_file_case(em, p, data, sched, cfg, k, desc):
            {"events": readable(res), "consumed": st.pos},
            explain="(run_reads file_ops (ctor T) (t_nmea_hdr T) (t_ubx_hdr T) (t_valcksum T) (t_err_raise T) (t_err_log T) (mk_cfg %s) %s %s {| rest := unpack %s; sched := dirs_of %s |})"
                    % (cfg_expr(cfg), vlib.natlit(len(data) + 1), vlib.natlit(k), vlib.blob(data), sch),
-           size=len(data))
+           size=len(data), spec=["reader_file", data.hex(), [(-1 if d is None else d) for d in sched], list(cfg), k])
     for h, r in res:
         em.count("result." + r[0])
     return res, st
 
 
-def add_sock_case(em, p, events, cfg, k, desc, chunked=False):
+def add_sock_case(em, p, events, cfg, k, desc, chunked=False, bufsize=4096):
+    if getattr(em, "watchdog_hits", 0) >= 3:      # non-termination already established: do not burn the time budget on more
+        return []
     sk = FakeSocket(events)
     try:
         v, q, l, pa = cfg
         calls = []
         rd = p.RTCMReader(sk, validate=v, quitonerror=q, labelmsm=l, parsed=pa, errorhandler=lambda e: calls.append(vlib.exc_tag(e)),
-                          encoding=1 if chunked else 0, bufsize=4096)
+                          encoding=1 if chunked else 0, bufsize=bufsize)
         res = []
         for _ in range(k):
             del calls[:]
             try:
-                raw, parsed = rd.read()
+                with vlib.watchdog(8):
+                    raw, parsed = rd.read()
                 r = ("E",) if raw is None and parsed is None else ("Y", raw, parsed)
+            except vlib.WatchdogTimeout:
+                res.append((list(calls), ("F", "read() did not finish within 8 s")))
+                em.watchdog_hits = getattr(em, "watchdog_hits", 0) + 1
+                break
             except Exception as e:  # noqa
                 t = vlib.exc_tag(e)
                 r = ("R", t) if t != 5 else ("F", repr(e))
@@ -149,7 +161,7 @@ def add_sock_case(em, p, events, cfg, k, desc, chunked=False):
     finally:
         sk.close()
     em.add("obs_reader_sock T %s %s %s %s" % ("true" if chunked else "false", cfg_expr(cfg), vlib.natlit(k), blist(events)), exp, [], desc,
-           {"recv_events": [e.hex() if e is not None else None for e in events], "cfg": list(cfg), "reads": k, "chunked": chunked},
+           {"recv_events": [e.hex() if e is not None else None for e in events], "cfg": list(cfg), "reads": k, "chunked": chunked, "bufsize": bufsize},
            {"events": readable(res)}, size=sum(len(e) for e in events if e))
     return res
 
@@ -220,7 +232,7 @@ def mixed_stream(tabs, rng, nitems, kinds, p_nmea_hdr):
         elif k == "nmea":
             items.append(("nmea", gen.nmea_sentence(rng, rng.choice([b"GP", b"GN", b"PU", b"GL"])), None))
         elif k == "nmea_lf":
-            items.append(("nmea", gen.nmea_sentence(rng)[:-2] + b"\n", None))
+            items.append(("nmealf", gen.nmea_sentence(rng)[:-2] + b"\n", None))
         elif k == "ubx":
             items.append(("ubx", gen.ubx_frame(rng, syncdense=rng.random() < 0.5), None))
         elif k == "ubx_big":
@@ -360,6 +372,18 @@ def main():
                 cfg = (1, rng.choice([0, 1, 2]), 1, True)
                 res, st = add_file_case(em, p, data, sched, cfg, len(items) + 12, "random multi-fault schedule")
                 check_C01(em, data, res, cfg, "random faults")
+        # several socket-backed readers one after the other in this process, each over its OWN data: every reader must
+        # return slices of its own stream only (state shared between wrapper instances would leak earlier data)
+        for it in range(12 if thorough else 5):
+            data, items = mixed_stream(tabs, rng, rng.randrange(2, 6), ["frame", "frame", "nmea", "noise", "damaged", "repeat"], None)
+            if len(data) > 3000:
+                continue
+            n_ = len(data)
+            cuts = sorted(rng.sample(range(1, n_), min(n_ - 1, rng.choice([0, 2, 6]))))
+            segs = [data[a_:b_] for a_, b_ in zip([0] + cuts, cuts + [n_])]
+            cfg = (1, rng.choice([0, 1, 2]), 1, True)
+            res = add_sock_case(em, p, segs, cfg, len(items) + 3, "socket reader #%d of this process over its own stream" % it, bufsize=rng.choice([8, 64, 4096]))
+            check_C01(em, data, res, cfg, "socket reader #%d" % it)
         # direct only: frames whose reserved header bits are set but which are CRC-consistent under a 16-bit reading of the
         # length field (what a relaxed header test would accept) must never be returned
         good = gen.frame(valid_payloads(tabs, rng, 1)[0])
@@ -429,8 +453,17 @@ def main():
                 j = min(len(data), i + rng.choice([1, 2, 3, 7, 50, 512, 4096]))
                 segs.append(data[i:j])
                 i = j
-            if it % 3 == 0 and len(segs) < 400:
-                add_sock_case(em, p, segs, (1, 0, 1, True), len(items) + 3, "same stream over a socket in %d segments" % len(segs))
+            # sockets: only streams whose sentences are CRLF-terminated (the wrapper's line read ends at CRLF by design; an
+            # LF-only line is not a complete NMEA sentence and is outside the property for socket streams)
+            if it % 3 == 0 and len(segs) < 400 and not any(x[0] == "nmealf" for x in items):
+                for bs in (rng.choice([1, 3, 16]), rng.choice([100, 1000]), 4096):
+                    res = add_sock_case(em, p, segs, (1, 0, 1, True), len(items) + 3, "same stream over a socket in %d segments, bufsize %d" % (len(segs), bs), bufsize=bs)
+                    em.direct_evaluations += 1
+                    got_s = [r[1] for h, r in res if r[0] == "Y"]
+                    want_s = [x[1] for x in items if x[0] == "frame" and must_parse(x[2])]
+                    if got_s != want_s:
+                        em.violation("C02: frames returned over a socket (bufsize %d) differ from the valid frames of the stream" % bs,
+                                     {"recv_events": [x.hex() for x in segs], "bufsize": bs, "stream": data.hex()}, {"returned": len(got_s), "expected": len(want_s)})
         em.samples = [{"items": [x[0] for x in items][:12], "bytes": len(data)}]
 
     elif prop == "C05":
@@ -481,6 +514,22 @@ def main():
                     if seq != want or any(r[0] == "R" and r[1] != 2 for h, r in res):
                         em.violation("C05: raise mode did not raise a parse error at each damaged frame between the good ones",
                                      {"stream": data.hex(), "damaged": dmg}, {"sequence": seq, "expected": want})
+            # log mode with other kinds of handler objects (the docs allow "error handling object or function"): a bound method,
+            # and a callable collector whose truth value is False while it is empty
+            class Collector(list):
+                def __call__(self, err):
+                    self.append(err)
+            coll = Collector()
+            plain = []
+            for hobj, count in ((coll, lambda: len(coll)), (plain.append, lambda: len(plain))):
+                try:
+                    got = [raw for raw, _ in p.RTCMReader(io.BytesIO(data), quitonerror=1, errorhandler=hobj)]
+                except Exception as e:  # noqa
+                    got = repr(e)
+                em.direct_evaluations += 1
+                if got != good or count() != nd:
+                    em.violation("C05: log mode with a %s as handler: %s frames, handler called %d times for %d damaged frames" % (
+                        type(hobj).__name__, len(got) if isinstance(got, list) else got, count(), nd), {"stream": data.hex(), "damaged": dmg}, {})
             # log mode through the logger (no handler object): one log record per damaged frame
             rec = []
 
@@ -521,6 +570,15 @@ def main():
                     flipped.append(False)
                 off += len(bts)
             bad = bytes(bad)
+            # every legal spelling of the options (0/1 as documented, booleans as commonly passed)
+            for v_, pa_ in ((True, 0), (False, 1), (1, 0), (0, False), (3, 0), (2, 1)):
+                cfg = (v_, 0, 1, pa_)
+                res, st = add_file_case(em, p, bad, [], cfg, len(items) + 2, "option spellings validate=%r parsed=%r" % (v_, pa_))
+                em.direct_evaluations += 1
+                for h, r in res:
+                    if r[0] == "Y" and ((r[2] is not None) != bool(pa_)):
+                        em.violation("C17: parsed=%r: parsed object %s" % (pa_, "returned although parsing is off" if not pa_ else "missing"),
+                                     {"stream": bad.hex(), "cfg": [int(v_), 0, 1, repr(pa_)]}, {})
             out = {}
             for v in (0, 1):
                 for pa in (True, False):
@@ -620,7 +678,33 @@ def main():
                         break
             except Exception as e:  # noqa
                 em.violation("C04: iterator raised %r in ignore mode" % e, {"stream": data.hex()}, {})
-        em.samples = [{"streams": "hostile item mixes, sync-dense noise, random bytes, embedded short-payload frames; three modes; with and without faults"}]
+        # finite SOCKET streams, plain and chunked, cut anywhere (also in the middle of a chunk) and then closed by the peer:
+        # iteration must finish and nothing foreign may escape
+        for it in range(30 if thorough else 10):
+            data, items = mixed_stream(tabs, rng, rng.randrange(1, 5), ["frame", "frame", "nmea", "ubx", "noise", "damaged"], None)
+            data = data[:1500]
+            body = b""
+            i = 0
+            while i < len(data):
+                j = min(len(data), i + rng.choice([3, 19, 64, 300]))
+                body += b"%x\r\n" % (j - i) + data[i:j] + b"\r\n"
+                i = j
+            for chunked, wire in ((False, data), (True, body), (True, body + b"0\r\n\r\n")):
+                for cutat in sorted(set([len(wire)] + [rng.randrange(0, len(wire) + 1) for _ in range(3)])):
+                    w = wire[:cutat]
+                    n_ = len(w)
+                    cuts = sorted(rng.sample(range(1, n_), min(n_ - 1, rng.choice([0, 1, 4])))) if n_ > 1 else []
+                    segs = [w[a_:b_] for a_, b_ in zip([0] + cuts, cuts + [n_])] if n_ else []
+                    for q in (0, 2):
+                        res = add_sock_case(em, p, segs + [b""], (1, q, 1, True), len(items) + 4,
+                                            "%s socket stream of %d bytes cut at %d then closed, mode %d" % ("chunked" if chunked else "plain", len(wire), cutat, q), chunked=chunked)
+                        em.direct_evaluations += 1
+                        for h, r in res:
+                            if r[0] == "F":
+                                em.violation("C04: reader over a socket: %s" % r[1], {"recv_events": [x.hex() for x in segs] + [""], "chunked": chunked, "cfg": [1, q, 1, True]}, {})
+                            if r[0] == "R" and q != 2:
+                                em.violation("C04: read() over a socket raised in mode %d" % q, {"recv_events": [x.hex() for x in segs] + [""], "chunked": chunked}, {})
+        em.samples = [{"streams": "hostile item mixes, sync-dense noise, random bytes, embedded short-payload frames; three modes; with and without faults; plain and chunked sockets cut anywhere"}]
 
     elif prop == "C11":
         for it in range(60 if thorough else 18):
@@ -636,7 +720,8 @@ def main():
                 cuts = sorted(rng.sample(range(1, n), min(n - 1, rng.randrange(1, 12)))) if n > 1 else []
                 parts.append([data[a_:b_] for a_, b_ in zip([0] + cuts, cuts + [n])])
             for segs in parts:
-                res = add_sock_case(em, p, segs, (1, 0, 1, True), len(items) + 3, "mixed stream over a socket in %d segments" % len(segs))
+                bs = rng.choice([1, 2, 7, 64, 1000, 4096])
+                res = add_sock_case(em, p, segs, (1, 0, 1, True), len(items) + 3, "mixed stream over a socket in %d segments, bufsize %d" % (len(segs), bs), bufsize=bs)
                 em.direct_evaluations += 1
                 got = [(r[1], None if r[2] is None else r[2].payload) for h, r in res if r[0] == "Y"]
                 if got != want:
@@ -651,6 +736,37 @@ def main():
                     evs.append(None)
             res = add_sock_case(em, p, evs, (1, 0, 1, True), len(items) + len(evs) + 3, "segments interleaved with timeouts / OSError")
         em.samples = [{"segmentations": "all-at-once, byte-wise, random cuts, with timeouts"}]
+
+    elif prop == "C13":
+        # the same bytes through many reader objects (file- and socket-backed, interleaved with readers over OTHER data):
+        # every reader must behave like the first one and like the pure model
+        streams = []
+        for it in range(8 if thorough else 4):
+            data, items = mixed_stream(tabs, rng, rng.randrange(2, 6), ["frame", "frame", "nmea", "noise", "damaged", "repeat"], None)
+            if len(data) <= 3000:
+                streams.append((data, items))
+        ref = {}
+        for rep in range(3):
+            order = list(range(len(streams)))
+            rng.shuffle(order)
+            for si in order:
+                data, items = streams[si]
+                n_ = len(data)
+                cuts = sorted(rng.sample(range(1, n_), min(n_ - 1, 3)))
+                segs = [data[a_:b_] for a_, b_ in zip([0] + cuts, cuts + [n_])]
+                for kind in ("file", "sock"):
+                    if kind == "file":
+                        res, st = add_file_case(em, p, data, [], (1, 0, 1, True), len(items) + 3, "stream %d through a fresh file reader (pass %d)" % (si, rep))
+                    else:
+                        res = add_sock_case(em, p, segs, (1, 0, 1, True), len(items) + 3, "stream %d through a fresh socket reader (pass %d)" % (si, rep), bufsize=rng.choice([16, 4096]))
+                    em.direct_evaluations += 1
+                    view = [(r[0], r[1] if r[0] == "Y" else None, None if r[0] != "Y" or r[2] is None else gen.public_attrs(r[2])) for h, r in res]
+                    if ref.setdefault((si, kind), view) != view:
+                        em.violation("C13: the same bytes through a new %s reader give a different result than the first time" % kind,
+                                     {"stream": data.hex(), "recv_events": [x.hex() for x in segs]}, {})
+                    if kind == "sock" and [v for v in view if v[0] == "Y"] != [v for v in ref[(si, "file")] if v[0] == "Y"]:
+                        em.violation("C13: socket reader and file reader disagree on the same bytes", {"stream": data.hex(), "recv_events": [x.hex() for x in segs]}, {})
+        em.samples = [{"note": "the same streams through fresh file and socket readers, three shuffled passes"}]
 
     elif prop == "C12":
         # the reader over a CHUNKED socket: a mixed stream cut into chunks of random sizes, sent in random segments
